@@ -27,6 +27,30 @@ NOT_APPLICABLE = {p: 'check under construction in this session; not claimed unti
                   for p in ['C%02d' % i for i in range(1, 21)]}
 
 PROPS = {
+    'C13': dict(
+        claimed=True,
+        level='exploration',
+        level_text="Differential testing of the read routine against a strict reference judge (MUST-accept / MUST-reject / EITHER per "
+                   "inbound packet, with the in-order rules of the outbound transfers): rapid generates a client with 0-n "
+                   "transfers at each stage plus a waiting Subscribe, and a stream of mostly valid traffic around hostile packets "
+                   "(or a hostile handshake reply); the thorough tier adds a native coverage-guided fuzz target over "
+                   "(handshake reply, stream, setup) seeded with every packet type. Asserted: no panic, ReadSlices returns, no "
+                   "wait without a read deadline inside a packet or the handshake, violation => error + closed connection + "
+                   "redial, accepted stream => exact replies, and completions/Deletes never exceed the in-order "
+                   "acknowledgements present in the input. A separate generator bounds TotalAlloc growth for packets which "
+                   "announce up to 256 MiB and deliver little.",
+        technique='property-based testing (rapid, structure-aware mutations) and native go fuzzing; differential against a strict reference parser/state model',
+        rule="setup = {0-3 at-least-once, 0-2 exactly-once before PUBREC, 0-2 after PUBREC, waiting Subscribe of 0/1/3 filters, "
+             "read buffer 131072/64/256}; stream = 1-4 packets, each benign or one of {PUBACK/PUBREC/PUBCOMP/PUBREL with identifier "
+             "zero / foreign space / off by one / completed / next in line, SUBACK with 0-4 codes incl. illegal ones and wrong "
+             "count, UNSUBACK, PINGRESP, PUBLISH with QoS 0-3 / topic length beyond the packet / identifier zero or cut / "
+             "flags, forbidden types 0,1,2,8,10,12,14,15, wrong / 5-byte / non-minimal / huge remaining length, reserved "
+             "header flags, 1-12 random bytes}; or a hostile handshake reply (any flags x code, short, wrong type, random). "
+             "Non-trivial: the reference reaches a verdict other than plain accept, or transfers were pending.",
+        assumptions=ASSUME_SIM + ["strictness beyond the violations listed in the property (reserved header flags on acknowledgements, empty or ill-formed topic in an inbound PUBLISH, non-minimal length) is EITHER: the reference follows the client"],
+        quick=dict(engines=[rapid('^TestC13Hostile', 8000), rapid('^TestC13Allocation', 48, shards=4)]),
+        thorough=dict(engines=[rapid('^TestC13Hostile', 200000, shards=14, timeout=1500), rapid('^TestC13Allocation', 400, shards=4)]),
+    ),
     'C10': dict(
         claimed=True,
         level='exploration',
